@@ -37,6 +37,10 @@ From Verif.Tlog Require Import Index Tree Codec Tile TileReader TileSpec.
 From Verif.Note Require Import Note.
 From Verif.Client Require Import Seq SeqProofs SeqProofsTile SeqProofsSafe SeqProofsTop SeqProofsInst SeqProofsHonest.
 From Verif.Client Require Import SeqProofsOrder SeqProofsOrderHist SeqEnv SeqEnvProofs.
+From Verif.Base Require Sha256.
+From Verif.Tlog Require Sha.
+From Verif.Client Require DispatchClient SeqProofsOrderWitness SeqProofsOrderCheckTree.
+From Verif.Tlog Require Import Spec6962.
 From Verif.Tlog Require ProofsTree.
 
 (* config_monotone_chain: along any history every WriteConfig (successful or lost to a write
@@ -174,6 +178,22 @@ Theorem C13_consistent_same_size :
 Proof. exact consistent_same_size. Qed.
 Print Assumptions C13_consistent_same_size.
 
+(* consistent_iff_check_tree: against the true head (zlen L, mth L) of a log with leaf hashes L
+   (mth = the RFC 6962 Merkle tree hash), what checkTrees establishes is exactly the existence of a
+   consistency proof accepted by tlog.CheckTree — each direction up to an explicit collision.
+   (=> uses the RFC 6962 proof PROOF(n, L); n = 0 is excluded because CheckTree rejects n < 1.) *)
+Theorem C13_consistent_iff_check_tree :
+  forall (node_hash : hash -> hash -> hash) (L : list hash), zlen L <= 2 ^ 62 ->
+  forall n hn, 1 <= n <= 2 ^ 62 ->
+  (Consistent node_hash (NodeAt node_hash) (Tree n hn) (Tree (zlen L) (mth node_hash L)) ->
+     (exists p, check_tree node_hash p (zlen L) (mth node_hash L) n hn = Index.Ok tt) \/
+     (exists a b c d : hash, (a, b) <> (c, d) /\ node_hash a b = node_hash c d)) /\
+  ((exists p, check_tree node_hash p (zlen L) (mth node_hash L) n hn = Index.Ok tt) ->
+     Consistent node_hash (NodeAt node_hash) (Tree n hn) (Tree (zlen L) (mth node_hash L)) \/
+     (exists a b c d : hash, (a, b) <> (c, d) /\ node_hash a b = node_hash c d)).
+Proof. exact SeqProofsOrderCheckTree.consistent_iff_check_tree. Qed.
+Print Assumptions C13_consistent_iff_check_tree.
+
 (* ================================================================================================
    Histories: chains of heads and the total order of accepted heads
    ================================================================================================ *)
@@ -257,6 +277,37 @@ Theorem C13_installed_heads_totally_ordered :
   (exists a b c d : hash, (a, b) <> (c, d) /\ node_hash a b = node_hash c d).
 Proof. exact installed_heads_totally_ordered. Qed.
 Print Assumptions C13_installed_heads_totally_ordered.
+
+(* NEGATIVE RESULT (finding K10): the side condition run_clean cannot be dropped.  A concrete world
+   (real SHA-256; the signature table of the harness as V; no foreign writer; new clients) and a
+   history of four lookups by two clients sharing the configuration — evaluated in the model by
+   vm_compute, Client/SeqProofsOrderWitness.v — in which every other hypothesis of
+   C13_installed_heads_totally_ordered holds, the third lookup returns ErrSecurity, the fourth
+   (same client) succeeds, and at the end two ACCEPTED heads (A: the latest of the live client 0, size 6;
+   B: the stored head, size 5) are comparable only if SHA-256 has a collision.  mergeLatest installs the
+   presented head in memory (checked against the client's own, stale head) before it compares with the
+   stored configuration; the comparison fails, the installed head stays. *)
+Theorem C13_installed_heads_totally_ordered_refuted :
+  exists (V : str -> str -> str -> bool) vs name steps w cs rs evs w' cs' A B,
+    (forall msg t, signed_tree V vs msg t -> Codec.tN t < 2 ^ 62) /\
+    (forall i, ClientInv Sha.record_hash V (NodeAt Sha.node_hash_sha) vs name (cs i)) /\
+    (forall i, c_init (cs i) = None) /\
+    key_ok Sha256.sha256 vs name w /\ w_interf w = [] /\
+    AllBefore Sha.node_hash_sha V vs name w cs /\
+    run Sha256.sha256 Sha.record_hash Sha.node_hash_sha V DispatchClient.esc_path_i DispatchClient.esc_vers_i
+        (fun _ => false) steps w cs = (rs, evs, w', cs') /\
+    (exists l0 l1 l3, rs = [LOk l0; LOk l1; LErr ESecurity; LOk l3] /\ l3 <> []) /\
+    accepted Sha256.sha256 Sha.record_hash Sha.node_hash_sha V DispatchClient.esc_path_i DispatchClient.esc_vers_i
+             (fun _ => false) vs name steps w cs A /\
+    accepted Sha256.sha256 Sha.record_hash Sha.node_hash_sha V DispatchClient.esc_path_i DispatchClient.esc_vers_i
+             (fun _ => false) vs name steps w cs B /\
+    (((A = B \/ (Codec.tN A < Codec.tN B /\ Consistent Sha.node_hash_sha (NodeAt Sha.node_hash_sha) A B)) \/
+      (B = A \/ (Codec.tN B < Codec.tN A /\ Consistent Sha.node_hash_sha (NodeAt Sha.node_hash_sha) B A))) ->
+     exists a b c d : hash, (a, b) <> (c, d) /\ Sha.node_hash_sha a b = Sha.node_hash_sha c d) /\
+    ~ run_clean Sha256.sha256 Sha.record_hash Sha.node_hash_sha V DispatchClient.esc_path_i DispatchClient.esc_vers_i
+                (fun _ => false) steps w cs.
+Proof. exact SeqProofsOrderWitness.installed_heads_totally_ordered_refuted. Qed.
+Print Assumptions C13_installed_heads_totally_ordered_refuted.
 
 (* non-vacuity: new clients (restarts) over ANY configuration satisfy the hypotheses on clients *)
 Example C13_new_clients_all_before : forall node_hash V vs name w,
